@@ -1,4 +1,5 @@
 import Pycoin.Model.TxCheck
+import Pycoin.Proofs.History
 /-!
 C20 — Context-free transaction checks accept exactly the well-formed transactions.
 Property theorems over `Model/TxCheck.lean` (core Lean only).
@@ -421,6 +422,34 @@ theorem C20_check_pure (c : Coin) (tx : Tx) (ids : List Nat) :
 theorem C20_coinbase_not_unsigned (tx : Tx) (solutionOk : Nat → Bool) (h : IsCoinbase tx) :
     badSolutionCount tx solutionOk = 0 := by
   simp [badSolutionCount, (tx_isCoinbase_iff tx).mpr h]
+
+/-! ## histories on one object -/
+
+/-- C20.check_after_mutation: after ANY history of observers and in-place mutators on one transaction object,
+`check()`, `is_coinbase()` and `bad_solution_count()` answer what they answer on a fresh object with the current
+fields; in particular every rejection theorem above applies to the fields as they are now, whatever was checked
+before (a script grown in place past the size limit is rejected although the earlier check passed) -/
+theorem C20_check_after_mutation (c : Coin) (st : History.St) (hist : List History.Step) :
+    History.run c st (hist ++ [.obs .check]) =
+      History.run c st hist ++
+        [.check (check c (History.after c st hist).tx (List.range (History.after c st hist).tx.ins.length))] ∧
+    History.run c st (hist ++ [.obs .isCoinbase]) =
+      History.run c st hist ++ [.bool (History.after c st hist).tx.isCoinbase] ∧
+    History.run c st (hist ++ [.obs .badSolutionCount]) =
+      History.run c st hist ++ [History.observe c (History.after c st hist) .badSolutionCount] :=
+  ⟨History.run_append_obs c _ hist st, History.run_append_obs c _ hist st, History.run_append_obs c _ hist st⟩
+
+/-- the size rule after a history: the last `check` of a history that leaves a stripped serialisation above the
+limit does not answer `ok`, whatever earlier checks answered -/
+theorem C20_check_after_mutation_size (c : Coin) (st : History.St) (hist : List History.Step) (b : Bytes)
+    (hb : (History.after c st hist).tx.stream false false = .ok b) (h : b.length > c.maxTxSize) :
+    (History.run c st (hist ++ [.obs .check])).getLast? ≠ some (.check (.ok ())) := by
+  rw [(C20_check_after_mutation c st hist).1]
+  simp only [List.getLast?_append, List.getLast?_singleton, Option.some_or]
+  intro he
+  injection he with he
+  injection he with he
+  exact C20_check_rejects_size c _ _ b hb h he
 
 /-! ## non-vacuity and boundary evaluations (tests, evaluated by the compiler) -/
 
